@@ -289,6 +289,8 @@ fn check_rolling_transparency(word: &[u8], alpha: &[X], ctx: &mut Ctx) {
     let fns = [
         R1::Sum, R1::Mean, R1::Ewm, R1::Wma, R1::Std, R1::Var, R1::Skew, R1::Kurt, R1::Min, R1::Max,
         R1::Rank { pct: false, rev: false }, R1::Rank { pct: true, rev: false }, R1::Rank { pct: false, rev: true }, R1::Rank { pct: true, rev: true },
+        // the normalisations of the newest element by the window's extremes / moments (round 11)
+        R1::Minmax, R1::Zscore,
     ];
     for ty in [ty_v1::<f64, f64>(), ty_v1::<Option<f64>, f64>()] {
         for w in 1..=len + 1 {
@@ -308,7 +310,7 @@ fn check_rolling_transparency(word: &[u8], alpha: &[X], ctx: &mut Ctx) {
                     if compact.is_empty() {
                         continue; // a window of nothing but nulls: the value of an empty window is C01's / C05's subject
                     }
-                    if matches!(f, R1::Rank { .. }) && x[i].is_none() {
+                    if matches!(f, R1::Rank { .. } | R1::Minmax | R1::Zscore) && x[i].is_none() {
                         continue; // the rank of a null is a null (C03)
                     }
                     let want = match (ty.run)(f, &compact, w, Some(0), Path::Ret) {
@@ -575,7 +577,7 @@ fn main() {
     total.sample(json!({"relation": "encoding", "entry": "ts_vstd", "series_f64": "[NaN, 1.0, 3.0]", "series_option": "[None, Some(1.0), Some(3.0)]", "outputs_equal_after_decoding": true}));
     total.sample(json!({"relation": "transparency", "op": "vskew(0)", "base": [-2, 0, 3], "with_nulls": [null, -2, 0, null, 3], "equal": true}));
     let meta = Meta {
-        rule: "(a) encoding relation: every word over the value alphabet; every null-aware rolling entry point (reduced (w, mp) band), mapping operation and aggregation is run on Vec<f64> (NaN) and Vec<Option<f64>> (None) with outputs f64 / Option<f64> / f32 / Option<i32>; outputs must be identical after decoding (None ~ NaN); the same on long structured series (24..70 elements) with null blocks and periodic null patterns. (b) null transparency: every null-free base word and every placement of 1..k nulls into its gaps (all multisets of gaps): count_valid, sums, moments, extrema, first / last, quantiles (grid x 4 methods), median, percentile-of-score are unchanged and count_none grows by k; two-series: extra positions with a null in the first, second or both series leave vcov / vcorr_pearson unchanged. Exact comparison. Non-trivial (a) = words containing a null; (b) = every base word. Also (DESIGN 5.4, 5.15, 5.16): both relations with the float nulls written as the run-time NaN (sign bit), a payload NaN and both mixed (encodings-nan-kinds, transparency-nan-kinds); null transparency of the position-independent rolling statistics (rolling-transparency: output i == statistic of window i with its nulls deleted). Round 8 (DESIGN 5.17): transparency of vrank (absolute / percentile, both directions): a valid element keeps the rank it has in the null-free base. Round 9 (DESIGN 5.18): optview - the option view .opt() of the NaN-encoded series is a third encoding: its rolling results (returned and buffer forms) and vrank agree with the Option encoding. Round 10 (DESIGN 5.19): the rolling rank (all four flag combinations) in rolling-transparency, judged where the newest element is valid.".into(),
+        rule: "(a) encoding relation: every word over the value alphabet; every null-aware rolling entry point (reduced (w, mp) band), mapping operation and aggregation is run on Vec<f64> (NaN) and Vec<Option<f64>> (None) with outputs f64 / Option<f64> / f32 / Option<i32>; outputs must be identical after decoding (None ~ NaN); the same on long structured series (24..70 elements) with null blocks and periodic null patterns. (b) null transparency: every null-free base word and every placement of 1..k nulls into its gaps (all multisets of gaps): count_valid, sums, moments, extrema, first / last, quantiles (grid x 4 methods), median, percentile-of-score are unchanged and count_none grows by k; two-series: extra positions with a null in the first, second or both series leave vcov / vcorr_pearson unchanged. Exact comparison. Non-trivial (a) = words containing a null; (b) = every base word. Also (DESIGN 5.4, 5.15, 5.16): both relations with the float nulls written as the run-time NaN (sign bit), a payload NaN and both mixed (encodings-nan-kinds, transparency-nan-kinds); null transparency of the position-independent rolling statistics (rolling-transparency: output i == statistic of window i with its nulls deleted). Round 8 (DESIGN 5.17): transparency of vrank (absolute / percentile, both directions): a valid element keeps the rank it has in the null-free base. Round 9 (DESIGN 5.18): optview - the option view .opt() of the NaN-encoded series is a third encoding: its rolling results (returned and buffer forms) and vrank agree with the Option encoding. Round 10 (DESIGN 5.19): the rolling rank (all four flag combinations) in rolling-transparency, judged where the newest element is valid. Round 11 (DESIGN 5.20): the normalisations ts_vminmaxnorm / ts_vzscore in rolling-transparency.".into(),
         bounds: json!({"encodings": {"alphabet": json_word(&enc.alpha), "L": enc.max_len}, "transparency": {"alphabet": json_word(&tr.alpha), "L": tr.max_len, "nulls_inserted": format!("1..={}", tr.max_nulls)}, "transparency_pairs": {"alphabet": json_word(&tr2.alpha), "L": tr2.max_len, "extra_positions": "1..=2 x {null in first, second, both}"}}),
         assumptions: vec!["canonical nulls only; Some(NaN) is never generated (DESIGN 5.4)".into(), "a call that panics under both encodings (documented or known panic) counts as equal".into()],
         exhaustive: true,
